@@ -73,7 +73,7 @@ def _kinds(lines, verdicts):
 _FLOORS = {"ring-replica": 0.15, "tablet-replica": 0.03, "pool-probe": 0.04, "ring-no-usable-replica": 0.03,
            "tablet-unknown-token": 0.03, "tablet-no-usable-replica": 0.003, "not-token-aware": 0.02,
            "lwt-replica": 0.02, "owner-shard-in-partial-pool": 0.002, "tablet-replica-after-shard-migration": 0.002,
-           "refill": 0.01, "refill-after-connection-loss": 0.001, "refill-with-trimmed-excess": 0.0001,
+           "refill": 0.007, "refill-after-connection-loss": 0.001, "refill-with-trimmed-excess": 0.0001,
            "refill-after-reshard": 0.0003, "refill-dropping-requested-surplus": 0.00008}
 
 
@@ -181,12 +181,12 @@ SPEC = {
     "pid": "C12",
     "coq_targets": ["Props/C12.vo", "Extract/ExC12.vo"],
     "bin": "c12",
-    # --n = number of mock clusters; quick: 100 requests per cluster (+ ~40 probe lines, ~4 refiller lines), thorough: 240
+    # --n = number of mock clusters; quick: 100 requests per cluster (+ ~34 probe lines, ~3.4 refiller lines), thorough: 240
     "sizes": {"quick": 300, "thorough": 3000},
     "min_cases": {"quick": 30000, "thorough": 700000},
     "search_n": 600,
     "search_rounds": 1,
-    "runner_timeout": 3000,
+    "runner_timeout": 9000,
     "rule": ("one case = one execution (execute_unpaged / execute_single_page / first page of execute_iter) of a prepared statement with a bound partition key by a real Session against a "
              "mocknode cluster: 1-6 nodes x 1-3 datacenters x 1-3 racks, 1-4 vnodes, shard counts 1-8 / unsharded / mixed, "
              "msb 0/1/4/12, nodes down before the session or stopped after the pools filled, nodes rejected by a HostFilter; "
@@ -209,6 +209,10 @@ SPEC = {
              "round-robin so that replacements land on covered shards and become excess connections, or by a change of the node's "
              "shard count (resharding: the replacement connections report the new count, the driver rebuilds the pool; with several "
              "replacements under way towards a node that now has 1-2 shards the surplus of a requested connection is dropped); "
+             "one cluster in twenty is shaped so that its first round always drops the surplus of requested connections "
+             "(8 -> 2 shards, all but one connection cut) and one in twenty so that it always fills and trims the excess list "
+             "(4 shards, plain port, one connection cut after a round-robin shift of one); the history also records the pool "
+             "connections the CLIENT closed, which must be, as a multiset of (shard, shard count), the ones the model lets go; "
              "then the pools are re-established by probing), and the pool "
              "that was finally established; the extracted refiller model run over that history must end with that pool. "
              "Tablet histories interleave payloads of the cluster's tables, include split / merge sequences and tablets listing a "
@@ -243,7 +247,10 @@ SPEC = {
         "C12_tablets_reachable show of every state the modelled code can reach; keys_ok (an NTS map has one entry per datacenter), "
         "cho_ok and shuf_ok (drawn indices in range, shuffles are permutations) are assumed; the driver re-checks pool "
         "well-formedness of its input with pool_wfb (C12_pool_wfb_sound)",
-        "the refiller tie replays the connection events in the order the mock saw them and compares shards per slot only; the "
+        "the refiller tie replays the connection events the mock saw; inside a burst of consecutive handshakes the order in which "
+        "the driver handled connections of the same shard is read off the closes (the one held longer was handled earlier); it compares the final "
+        "shards per slot and the multiset of (shard, shard count) of the connections the client closed with the model's released "
+        "connections; it cannot tell a surplus connection dropped at once from one kept in the excess list and trimmed later; the "
         "excess limit (10 x shard count) is not reached by it",
         "prop_obs_ok is handed the specification's token (C03 spec_token) only when it equals the token of the request "
         "(otherwise the verdict is `diff token-differs-from-specification`); with that token it is route_prop for the "
